@@ -516,14 +516,24 @@ def scenarios(ctx):
 
 # ------------------------------------------------------------------------------------------------ running
 
-def run_harness(exe, patfile, scns, timeout=240):
-    """returns {sid: [lines]}; restarts the harness after a scenario that left it in an unknown state"""
+def run_harness(exe, patfile, scns, timeout=None):
+    """returns {sid: [lines]}; restarts the harness after a scenario that left it in an unknown state.  The wall-clock
+    limit is a safety net scaled with the machine's load; a batch that hits it is not a verdict: the scenario that was
+    cut is re-run alone with its own generous limit (the harness bounds every wait itself, so it always terminates)"""
+    try:
+        k = max(1.0, os.getloadavg()[0] / (os.cpu_count() or 4))
+    except OSError:
+        k = 1.0
     res = {}
     consts = []
     todo = list(scns)
+    alone = False
+    retried = set()
     while todo:
-        inp = "\n".join("\n".join(s.lines) for s in todo) + "\n"
-        r = common.run([exe, patfile], input=inp, timeout=timeout)
+        batch = todo[:1] if alone else todo
+        limit = (900 if alone else 300 + 60 * len(batch)) * k
+        inp = "\n".join("\n".join(s.lines) for s in batch) + "\n"
+        r = common.run([exe, patfile], input=inp, timeout=limit)
         cur = None
         seen = []
         for l in r.stdout.split("\n"):
@@ -536,15 +546,33 @@ def run_harness(exe, patfile, scns, timeout=240):
             elif cur is not None and l.strip():
                 res[cur].append(l)
         done = set(sid for sid in seen if res[sid] and res[sid][-1].startswith("Z"))
+        if r.returncode == 124:
+            # cut by the safety net: continue from the first scenario without a result, alone
+            rest = [s for s in batch if s.sid not in done]
+            cut = rest[0]
+            if alone and cut.sid in retried:
+                res[cut.sid] = ["Z crash the harness did not finish this scenario alone within %.0f s" % limit]
+                todo = todo[1:]
+                alone = False
+                continue
+            retried.add(cut.sid)
+            res.pop(cut.sid, None)
+            idx = [i for i, s in enumerate(todo) if s.sid == cut.sid][0]
+            todo = todo[idx:]
+            alone = True
+            continue
         if not seen:
-            for s in todo:
+            for s in batch:
                 res[s.sid] = ["Z crash rc=%s %s" % (r.returncode, r.stderr[-300:].replace("\n", " "))]
-            break
+            todo = todo[len(batch):]
+            alone = False
+            continue
         last = seen[-1]
         if last not in done:
             res[last].append("Z crash rc=%s %s" % (r.returncode, r.stderr[-300:].replace("\n", " ")))
         idx = [i for i, s in enumerate(todo) if s.sid == last][0]
         todo = todo[idx + 1:]
+        alone = False
     return res, consts
 
 
@@ -750,9 +778,19 @@ def coq_case(s, o, ev):
 # the node budget of Model/IoOp.v explain (deterministic: verdict -1); besides that, only a SINGLE scenario that exhausts
 # its CPU-time budget (ulimit -t, measured by the kernel, independent of the machine's load) counts as "the model cannot
 # explain this run within budget" (verdict -2).
-CPU_SINGLE = 600          # CPU seconds for one scenario (the heaviest observed, a 1 MiB write in 8 KiB pieces, needs ~30)
-WALL_SINGLE = 3600        # safety net
-WALL_BATCH = 900
+CPU_SINGLE = 600          # CPU seconds for one coqc run (the heaviest scenario observed needs ~30, a batch of 15 ~100)
+
+
+def _wall(cpu=None):
+    """wall-clock safety net for a run whose CPU time is limited to `cpu` seconds: what that CPU time can take on a machine
+    oversubscribed as much as it is right now, with a margin; never the deciding limit"""
+    cpu = cpu or CPU_SINGLE
+    try:
+        k = os.getloadavg()[0] / (os.cpu_count() or 4)
+    except OSError:
+        k = 1.0
+    return cpu * max(2.0, 1.0 + 2.0 * k)
+
 
 
 def _workers(cap):
@@ -837,14 +875,14 @@ def _resolve(tag, part, log):
     """sequential: whole part, then halves, down to single scenarios"""
     if len(part) == 1:
         for attempt in range(2):
-            st, v, used, raw = _eval_part(tag, part, WALL_SINGLE, CPU_SINGLE)
+            st, v, used, raw = _eval_part(tag, part, _wall(), CPU_SINGLE)
             log.append("single %s attempt %d: %s, %.0f CPU s" % (tag, attempt, st, used))
             if st == "ok":
                 return v
             if st == "cpu":
                 return [-2]
         return [None]          # inconclusive: neither a result nor an exhausted CPU budget (starved or killed from outside)
-    st, v, used, raw = _eval_part(tag, part, WALL_BATCH, CPU_SINGLE)
+    st, v, used, raw = _eval_part(tag, part, _wall(), CPU_SINGLE)
     log.append("group %s (%d): %s, %.0f CPU s" % (tag, len(part), st, used))
     if st == "ok":
         return v
@@ -863,7 +901,7 @@ def model_check(cases):
 
     def one(idx_part):
         idx, part = idx_part
-        return _eval_part("c14_b%d" % idx, part, WALL_BATCH, CPU_SINGLE)
+        return _eval_part("c14_b%d" % idx, part, _wall(), CPU_SINGLE)
 
     first = []
     with concurrent.futures.ThreadPoolExecutor(max_workers=w) as ex:
@@ -874,6 +912,7 @@ def model_check(cases):
             res += v
         else:
             log.append("batch %d: %s after %.0f CPU s -> re-run alone" % (idx, st, used))
+            common.log("C14 model batch %d: %s after %.0f CPU s (not a verdict): re-running alone" % (idx, st, used))
             res += _resolve("c14_r%d" % idx, part, log)
     return res, log
 
@@ -882,7 +921,7 @@ def _eval_text(tag, body):
     """one small evaluation with retries (used for constants and diagnostics)"""
     raw = ""
     for attempt in range(3):
-        st, vals, used, raw = _coq_run(tag, body, WALL_BATCH, CPU_SINGLE)
+        st, vals, used, raw = _coq_run(tag, body, _wall(), CPU_SINGLE)
         if st == "ok" and vals:
             return vals[0], raw
     return None, raw
@@ -915,11 +954,11 @@ def run_all(ctx, scns):
     if exe is None:
         return None, msg
     patfile, base = pattern_file()
-    W = _workers(6)
+    W = max(2, _workers(6))
     groups = [scns[k::W] for k in range(W)]
     res, consts = {}, []
     with concurrent.futures.ThreadPoolExecutor(max_workers=W) as ex:
-        for r, c in ex.map(lambda g: run_harness(exe, patfile, g, timeout=1800) if g else ({}, []), groups):
+        for r, c in ex.map(lambda g: run_harness(exe, patfile, g) if g else ({}, []), groups):
             res.update(r)
             consts += c
     return (res, consts, base), ""
@@ -1056,7 +1095,7 @@ def replay(ctx, obj):
         print("replaying scenario %s: recorded failure: %s" % (f.get("sid"), f.get("what")))
         hit = False
         for attempt in range(5):      # the interleaving of the peer and the library is timing dependent
-            res, _ = run_harness(exe, patfile, [s], timeout=120)
+            res, _ = run_harness(exe, patfile, [s])
             ev = parse(res.get(s.sid, []))
             out = judge(s, ev, base)
             if out:
